@@ -135,7 +135,7 @@ type c01Req struct {
 	reportInExpiryBlock bool
 }
 
-var c01ScriptEids = [][]uint64{{1, 2, 3}, {1}, {1}, {1}, {1}}
+var c01ScriptEids = [][]uint64{{3, 1, 2}, {1}, {1}, {1}, {1}} // script 0 asks its external ids out of ascending order
 
 func c01EchoResult(r *c01Req, execTime int64) []byte {
 	var b bytes.Buffer
@@ -166,7 +166,7 @@ func runC01(c c01Case) *pbt.Verdict {
 	op := oracletypes.DefaultParams()
 	op.ExpirationBlockCount = c.Expiration
 	op.MaxReportDataSize = c.MaxReportSz
-	scripts := [][]byte{sim.ScriptAsk([]int{1, 2, 1}, "ok"), sim.ScriptEcho(1), sim.ScriptAsk([]int{2}, ""),
+	scripts := [][]byte{sim.ScriptAskEIDs([]int{1, 2, 1}, []int{3, 1, 2}, "ok"), sim.ScriptEcho(1), sim.ScriptAsk([]int{2}, ""),
 		sim.ScriptProbe(1, map[string]int{"last": -1, "ask": 0, "ask+1": 1, "neg1": 0}[c.Probe], c.Probe == "neg1"),
 		sim.ScriptReturnEmpty([]int{2})}
 	ch, err := sim.New(sim.Config{
